@@ -222,3 +222,8 @@ CHECKS["C10"] = ExprCheck()
 from harness.checks_union import UnionCheck  # noqa: E402
 
 CHECKS["C11"] = UnionCheck()
+
+
+from harness.checks_enum import EnumCheck  # noqa: E402
+
+CHECKS["C12"] = EnumCheck()
